@@ -235,3 +235,30 @@ def registry_complete(dummy):
 OBLIGATIONS.append(Ob("registry_complete", registry_complete, [("dummy", "int:0:0")], tier="both", timeout=300, layer="X",
                       functions=["multidecoder.registry.build_registry"], reach=False,
                       bound="concrete side condition (no symbolic input): AST walk of decoders/*.py, list pinned from the baseline commit, shipped keyword files"))
+
+
+# ---- a custom keyword directory REPLACES the shipped keywords, whatever it contains ----------------------------
+def custom_directory_replaces(c0, e0):
+    """build_registry(<dir>) holds exactly one searcher per non-blank file of <dir> (typed by the file name) besides
+    the decoders -- in particular none at all, and no shipped keyword list, when every file is empty or blank"""
+    f1, f2 = bytes([c0]) + b"\n", bytes([e0])
+    fs = FakeFS("/kw", {"": {"api.one": f1}, "sub": {"two": f2}})
+    try:
+        reg = with_fs(fs, lambda: build_registry("/kw"))
+    except Exception as e:  # noqa: BLE001
+        return hx.fail(f"build_registry raised {type(e).__name__}: {e}", f1=f1, f2=f2), True
+    want = [name for name, content in (("api.one", f1), ("two", f2)) if ref_lines(content)]
+    got = [f.args[0] for f in reg if hasattr(f, "args")]
+    if got != want:
+        return hx.fail("keyword searchers of a custom directory are not exactly its non-blank files", f1=f1, f2=f2, got=got[:6],
+                       n_got=len(got), want=want), True
+    if len(reg) - len(got) != len(ALL_DECS):
+        return hx.fail("decoder part of the registry changed with the keyword directory", n=len(reg) - len(got)), True
+    return True, len(want) == 0
+
+
+OBLIGATIONS.append(Ob("custom_directory_replaces_shipped_keywords", custom_directory_replaces, bytes_params("c", 1) + bytes_params("e", 1),
+                      pre=" and ".join(LINECH.format(x=v) for v in ("c0", "e0")), tier="both", timeout=400, layer="B",
+                      functions=["multidecoder.registry.build_registry", "multidecoder.registry.get_keywords"],
+                      stubs=["os.walk and open inside multidecoder.registry serve an in-memory directory"],
+                      bound="two files of 1 (+LF) and 1 bytes over {LF, CR, 'a', 'b', ' '} (all-blank directories included)"))
